@@ -10,13 +10,15 @@ def main(tier, seed, replay=None):
     if replay:
         return cc.replay_file(replay)
     q = tier == 'quick'
-    e1 = [cl.Config(n=2, slow=[(1, 2)], rounds=11),
+    e1 = [cl.Config(n=2, slow=[(1, 2)], rounds=9, k=7),
           cl.Config(n=2, crash=1, restart=1, rounds=12),
           cl.Config(n=3, core=(2,), sync=('CORE', 'TIMEOUT'), rounds=10),
           cl.Config(n=2, sync=('USER',), user=1, rounds=10),
-          cl.Config(n=3, sync=('LIST', 'TIMEOUT'), auto_fence=True, cut=1, rounds=8)]
+          cl.Config(n=3, sync=('LIST', 'TIMEOUT'), auto_fence=True, cut=1, rounds=6, k=5)]
     if not q:
         e1 += [cl.Config(n=2, slow=[(2, 1), (2, 2)], rounds=11),
+               cl.Config(n=2, slow=[(1, 2)], rounds=11),
+               cl.Config(n=3, sync=('LIST', 'TIMEOUT'), auto_fence=True, cut=1, rounds=8),
                cl.Config(n=3, crash=1, restart=1, rounds=12),
                cl.Config(n=2, crash=1, restart=1, slow=[(1, 2)], rounds=12),
                cl.Config(n=3, cut=1, rounds=12),
